@@ -68,7 +68,7 @@ P = {
          'Angles avoid exact gate values; buffer widths inside the non-degenerate range.', '3/C20'),
 }
 
-DONE = ['C01', 'C02', 'C03', 'C04', 'C05', 'C06', 'C07', 'C08', 'C09', 'C10', 'C11', 'C12', 'C13', 'C15', 'C16', 'C17', 'C18', 'C19', 'C20']
+DONE = sorted(P)
 
 PENDING_REASON = ('check under construction in this session (design in '
                   'DESIGN.md section 3); not claimed until it runs clean on '
